@@ -31,7 +31,7 @@ func (e *Enc) buildQuery(o *Obligation, withModel bool) string {
 	b.WriteString(prelude)
 	b.WriteString("(declare-const gstr.empty Str)\n(assert (= (gstr.len gstr.empty) 0))\n")
 	b.WriteString("(define-fun zeroTimeAbs () Int (- 62135596800000000000))\n")
-	b.WriteString("(assert (forall ((s Str)) (! (>= (gstr.len s) 0) :pattern ((gstr.len s))))) ;;bg\n")
+	b.WriteString("(assert (forall ((s Str)) (! (and (>= (gstr.len s) 0) (<= (gstr.len s) 140737488355328)) :pattern ((gstr.len s))))) ;;bg\n")
 	b.WriteString("(assert (forall ((s Str) (i Int)) (! (and (<= 0 (gstr.at s i)) (<= (gstr.at s i) 255)) :pattern ((gstr.at s i))))) ;;bg\n")
 	// Go string equality is content equality: gstr.eq, defined by length and bytes (skolemised difference index)
 	b.WriteString("(declare-fun gstr.eq (Str Str) Bool)\n(declare-fun gstr.diff (Str Str) Int)\n")
@@ -226,6 +226,15 @@ func solveAll(jobs []job, dir string, secs, par int) {
 					s2 = 3 // covers only guard against vacuity: `unsat` is the only answer that matters
 				}
 				r = solve(q, dir, fmt.Sprintf("%04d_%s", idx, j.o.Name), s2, "")
+				if !j.o.Cover && r.result != "unsat" && r.result != "sat" {
+					// undecided: one retry with three times the budget before it is reported (keeps the unchanged
+					// tree free of alarms caused by machine load)
+					r2 := solve(q, dir, fmt.Sprintf("%04d_%s.retry", idx, j.o.Name), 3*s2, "")
+					if r2.result == "unsat" || r2.result == "sat" {
+						r2.backend += "(retry)"
+						r = r2
+					}
+				}
 			}
 			j.o.Result, j.o.Backend, j.o.Secs, j.o.Output = r.result, r.backend, r.secs, r.output
 			if r.result == "sat" {
